@@ -16,13 +16,19 @@ RULE = ("primary histories of 1-10 operations over 1-3 databases (strategies non
         "accepted by the primary during the synchronisation under seeded random FIFO interleavings; at quiescence the joiner's "
         "databases are compared with the primary's; exhaustive over single-key histories x value alphabet; distinct = distinct "
         "canonical trace; non-trivial = the primary held at least one live key and one removed key when the node joined; "
-        "plus the rejoin family: history split into followed / while-away / during-sync parts at random points")
+        "plus the rejoin family: history split into followed / while-away / during-sync parts at random points; plus the real-process "
+        "family b*: the primary is the real nun-db binary with a history of 1-8 operations, a second real binary with an empty disk joins "
+        "it through NUN_REPLICATE_ADDR (main.rs's join and start-up election, the real TCP links, handshake and replicate-since), 0-4 "
+        "further writes follow; the final data and roles of both processes, read over TCP, are compared with the model's")
 ASSUMPTIONS = ["join with an empty disk (since = 0, full synchronisation) and rejoin of a node that followed the primary, was away while "
                "0-6 operations were accepted, and asks for everything after its own last operation (incremental synchronisation, every split "
                "point of the history); a rejoin after a process restart from an older snapshot is not driven through the cluster harness "
                "(restart itself is C06/C16)",
                "node clocks are one clock (one process)"]
-TRUSTED = ["links are explicit FIFO queues (hook open_link); handshake lines emulated by the harness"]
+TRUSTED = ["cluster-driver families: links are explicit FIFO queues (hook open_link) and the handshake lines are emulated by the harness; "
+           "the real-process family b* uses no hook at all (production build, real sockets) but observes final states only, waits for "
+           "quiescence by polling, retries a formation that did not happen (up to 3 times) and accepts either outcome of one race of the "
+           "implementation (the joiner's request to itself served before or after the primary's lines: lib/c05.py reconcile)"]
 
 VALS = ["x", "a b c", "12 abc", "", "<Empty>", "007", "-3 z", "x  y", "é ü"]
 
